@@ -1083,7 +1083,13 @@ int ov_halfrate(OggVorbis_File *vf,int flag){
       ogg_int64_t pos=vf->pcm_offset;
       vf->pcm_offset=-1; /* make sure the pos is dumped if unseekable */
       if(vf->seekable){
-        int ret=ov_pcm_seek(vf,pos);
+        /* at half rate the position moves two samples at a time, so
+           playing a stream of odd length to its end leaves it one
+           past the total; the seek accepts nothing beyond the total */
+        ogg_int64_t total=ov_pcm_total(vf,-1);
+        int ret;
+        if(pos>total)pos=total;
+        ret=ov_pcm_seek(vf,pos);
         if(ret)return(ret);
       }
     }
